@@ -11,7 +11,7 @@ from fractions import Fraction
 import numpy as np
 
 from vlib.core import Result, pmap, merge_results, run_hypothesis, quiet
-from vlib.grids import sphere_grid, full_grid
+from vlib.grids import scribble, sphere_grid, full_grid
 
 
 def expected_parts(case):
@@ -32,16 +32,22 @@ def judge(case):
     try:
         fg = full_grid(f"{case['b_alg']}_{n_b}", f"{case['o_alg']}_{n_o}", t_name, factor=2, cartesian=case["cartesian"])
         with quiet():
-            arr = np.asarray(fg.get_full_grid_as_array())
+            handed = fg.get_full_grid_as_array()
+            arr = np.array(handed)
     except Exception as e:
         return [f"exception {type(e).__name__}: {e}"]
     if arr.shape != (n, 7):
         return [f"array shape {arr.shape}, expected {(n, 7)}"]
     with quiet():
+        # the arrays handed out belong to the caller: it converts the full array and the position array to other units
+        # in place, then asks the same grid again
+        scribble(handed)
+        scribble(fg.get_position_grid().get_position_grid_as_array())
         arr_again = np.asarray(fg.get_full_grid_as_array())
-    if not np.array_equal(arr_again, arr):
-        return [f"a second call of get_full_grid_as_array() on the same grid returns different rows "
-                f"(max deviation {np.abs(arr_again - arr).max():.3g})"]
+    if arr_again.shape != arr.shape or not np.array_equal(arr_again, arr):
+        return [f"a second call of get_full_grid_as_array() on the same grid (after the caller edited the full array and the "
+                f"position array it was handed in place) returns different rows "
+                f"(shape {arr_again.shape}" + (f", max deviation {np.abs(arr_again - arr).max():.3g})" if arr_again.shape == arr.shape else ")")]
     quats, dirs, radii = expected_parts(case)
     idx = np.arange(n)
     pos_i, q_i = idx // n_b, idx % n_b
